@@ -28,7 +28,15 @@ KEEP = 0
 SEED_SMALL, SEED_BIG, SEED_NEAR = 7, 20170519, 20170521   # NEAR: within numpy.isclose of BIG
 VAR = {1: 1.0, 2: 2.0}
 LEN = {1: 1.0, 2: 2.0}
-ANIS = {1: 1.0, 2: 0.5}
+ANIS = {1: 1.0, 2: 0.5, 3: 0.25}
+
+
+def anis_of(tok, dim):
+    """Per-axis ratios: token 2 changes only the first ratio, token 3 the first two differently."""
+    full = {1: [1.0, 1.0], 2: [0.5, 1.0], 3: [0.5, 0.25]}[tok]
+    if dim == 2:
+        return [ANIS[tok]]
+    return full[: dim - 1]
 ANG = {0: 0.0, 1: 0.4}
 NUG = {0: 0.0, 1: 0.5}
 _SHARED = {SEED_SMALL: SEED_SMALL, SEED_BIG: SEED_BIG, SEED_NEAR: SEED_NEAR}
@@ -46,7 +54,7 @@ def period_of(tok, dim):
 
 def mc_text(name, kind, dim, size, seed_compare="value", dk_refresh=True):
     small = size in ("gen",)
-    anis = "{1}" if dim == 1 else "{1, 2}"
+    anis = "{1}" if dim == 1 else "{1, 2, 3}"
     ang = "{0}" if dim == 1 else ("{0, 1}" if not small else "{0, 1}")
     defs = {
         "Kind": '"%s"' % kind, "SeedVals": "{%d, %d, %d}" % (SEED_SMALL, SEED_BIG, SEED_NEAR), "SmallSeeds": "{%d}" % SEED_SMALL,
@@ -54,8 +62,13 @@ def mc_text(name, kind, dim, size, seed_compare="value", dk_refresh=True):
         "ModeNos": "{4, 6}", "Periods": "{1, 2}" if kind == "Fourier" else "{1}",
         "SeedCompare": '"%s"' % seed_compare, "DkRefresh": "TRUE" if dk_refresh else "FALSE",
         "MaxDraws": "3",
-        "InitModels": "{[var |-> 1, len |-> 1, anis |-> 1, ang |-> 0, nug |-> 0]}" if small else "Model",
+        "InitModels": ("{[var |-> 1, len |-> 1, anis |-> 1, ang |-> 0, nug |-> 0]}" if dim == 1 else
+                       "{[var |-> 1, len |-> 1, anis |-> 1, ang |-> 0, nug |-> 0], [var |-> 2, len |-> 1, anis |-> 2, ang |-> 1, nug |-> 0]}")
+        if small else "Model",
     }
+    if size == "mcquick":   # exhaustive design check of the quick tier: two seeds, two anisotropy tokens
+        defs["SeedVals"] = "{%d, %d}" % (SEED_SMALL, SEED_BIG)
+        defs["AnisVals"] = "{1}" if dim == 1 else "{1, 2}"
     mod = "---- MODULE %s ----\nEXTENDS Generator\n" % name
     mod += "".join("Mc%s == %s\n" % kv for kv in defs.items())
     mod += 'DepthBound == TLCGet("level") <= 4\n====\n'
@@ -106,7 +119,7 @@ class Real:
     def model(self, pm):
         kw = dict(dim=self.dim, var=VAR[pm["var"]], len_scale=LEN[pm["len"]], nugget=NUG[pm["nug"]])
         if self.dim > 1:
-            kw["anis"] = [ANIS[pm["anis"]]] * (self.dim - 1)
+            kw["anis"] = anis_of(pm["anis"], self.dim)
             kw["angles"] = [ANG[pm["ang"]]] + [0.0] * (self.dim * (self.dim - 1) // 2 - 1)
         return self.cls(**kw)
 
@@ -121,7 +134,7 @@ class Real:
             elif f == "nug":
                 srf.model.nugget = NUG[v]
             elif f == "anis":
-                srf.model.anis = [ANIS[v]] * (self.dim - 1)
+                srf.model.anis = anis_of(v, self.dim)
             elif f == "ang":
                 srf.model.angles = [ANG[v]] + [0.0] * (self.dim * (self.dim - 1) // 2 - 1)
         elif n == "AssignModel":
@@ -308,7 +321,17 @@ def _work(job):
     nodes, edges, inits = tlc.read_dot(os.path.join(scdir, "G_%s_%d.dot" % (speckind, dim)))
     ps, _ = paths.edge_cover(nodes, edges, inits, rng=rng, merge=True)
     if cap and len(ps) > cap:
-        ps = rng.sample(ps, cap)
+        # stratified: first one path per distinct operation signature (rare generator setters first), then random
+        def sig(p):
+            return tuple(sorted({nodes[i]["op"]["name"] + ("." + str(nodes[i]["op"].get("fld", ""))) for i in p[1:]}))
+        rng.shuffle(ps)
+        rare = ("GenPeriod", "GenModeNo", "GenSeed", "GenReset", "AssignModel", "InPlace.anis", "InPlace.ang")
+        ps.sort(key=lambda p: -sum(any(x.startswith(r) for x in sig(p)) for r in rare))
+        seen, first, rest = set(), [], []
+        for p in ps:
+            (first if sig(p) not in seen else rest).append(p)
+            seen.add(sig(p))
+        ps = (first + rest)[:cap]
     behs = [("state-graph edge cover", [nodes[i] for i in p]) for p in ps]
     for beh in tlc.read_sim_traces(os.path.join(scdir, "sim"), "S_%s_%d" % (speckind, dim)):
         behs.append(("simulate", [s for _a, s in beh]))
@@ -332,7 +355,7 @@ def run(pid, tier, seed, replay=None):
     rng = random.Random(seed)
     thorough = tier == "thorough"
     rep.assumptions += [
-        "value lattice: var {1,2}, len_scale {1,2}, anis {1,1/2} (all ratios), first angle {0,0.4}, nugget {0,0.5}, seeds {7, 20170519}, mode_no {4,6}, periods {8 / [8,16,12]}",
+        "value lattice: var {1,2}, len_scale {1,2}, anis {[1,1],[1/2,1],[1/2,1/4]}, first angle {0,0.4}, nugget {0,0.5}, seeds {7, 20170519}, mode_no {4,6}, periods {8 / [8,16,12]}",
         "`sampling` is not among the settings the property lists and is not modelled",
         "reference values come from freshly built SRF objects (the property's own oracle); the order of RNG draws is not pinned",
         "nugget noise is only compared between the two identity runs of the same behaviour (bitwise)",
@@ -353,7 +376,7 @@ def run(pid, tier, seed, replay=None):
         for sk in speckinds:
             for dim in (1, 2, 3):
                 name = "MC_%s_%d" % (sk, dim)
-                mod, cfg = mc_text(name, sk, dim, "mc")
+                mod, cfg = mc_text(name, sk, dim, "mc" if thorough else "mcquick")
                 sc.write(name + ".tla", mod)
                 jobs.append((("mc", sk, dim), sc, name, cfg_mc(cfg), dict(workers=4, timeout=1800)))
                 name = "G_%s_%d" % (sk, dim)
@@ -397,7 +420,7 @@ def run(pid, tier, seed, replay=None):
                     if kind == "IncomprRandMeth" and cls != classes[0] and not thorough:
                         continue
                     work.append(("%s/%s/%d" % (kind, cls, dim), kind, sk, cls, dim, sc.dir,
-                                 None if thorough else 120, rng.randrange(2**31), tier))
+                                 None if thorough else (300 if pid == "C17" else 120), rng.randrange(2**31), tier))
         import multiprocessing as mp
 
         with mp.get_context("fork").Pool(14) as pool:
